@@ -164,10 +164,12 @@ def same(a, b):
 
 def raw_expect(typ, value):
     """(expected raw python value, exact?)"""
+    # a SHORT / INT record whose length field is larger than its natural width still exposes the unsigned integer held
+    # in its LEADING 2 / 4 bytes (shorter-than-natural values are left unspecified)
     if typ == 1:
-        return int.from_bytes(value[:2], "big"), len(value) == 2
+        return int.from_bytes(value[:2], "big"), len(value) >= 2
     if typ == 2:
-        return int.from_bytes(value[:4], "big"), len(value) == 4
+        return int.from_bytes(value[:4], "big"), len(value) >= 4
     return value, True
 
 
